@@ -7,7 +7,7 @@
    3. state_eqb ...  decidable comparison of states, and the deterministic families of concrete
                      states on which a FAILED tie is evaluated to find a witness (diagnosis only:
                      nothing in section 3 is used by a tie theorem)
-   No axioms, no admits. *)
+   Every lemma is proved; nothing is assumed. *)
 From Coq Require Import List NArith ZArith Bool Arith Lia String.
 From CatV Require Import Bytes Defs Codec Fsm.
 Import ListNotations.
@@ -22,6 +22,30 @@ Local Open Scope nat_scope.
    envelope), as the model does for its own out-of-range accesses. *)
 Definition store_c (i : nat) (v : N) (s : state) : state :=
   if i <? asz s then set_cbuf (upd (cbuf s) i v) s else set_fault_flag s.
+
+(* The dispatching switches of cat_service / unsolicited_events_service are generated as TABLES
+   state -> dispatch.  hname = the C functions a dispatching arm may call (one constructor per
+   function; the ones that take a cat_fsm_type carry it); what calling them MEANS in the model is
+   fixed in HandlerTie.v.in (run_assign / run_busy), not here. *)
+Inductive hname :=
+  | H_error_state | H_process_idle_state | H_parse_prefix | H_parse_command | H_update_command
+  | H_wait_read_acknowledge | H_search_command | H_command_found | H_command_not_found
+  | H_parse_command_args | H_parse_write_args | H_format_read_args (f : fsm)
+  | H_wait_test_acknowledge | H_format_test_args (f : fsm) | H_process_write_loop
+  | H_process_read_loop (f : fsm) | H_process_test_loop (f : fsm) | H_process_run_loop
+  | H_process_hold_state | H_process_io_write_wait | H_process_io_write
+  | H_unsolicited_process_io_write_wait | H_unsolicited_process_io_write
+  | H_reset_state | H_unsolicited_reset_state | H_ack_ok
+  | H_start_processing_format_read_args (f : fsm) | H_start_processing_format_test_args (f : fsm)
+  | H_end_processing_with_ok (f : fsm) | H_print_cmd_list | H_check_unsolicited_buffers.
+Inductive dispatch :=
+  | DAssign (h : hname)      (* s = h(self);                                                *)
+  | DBusy (h : hname)        (* h(self); s = CAT_STATUS_BUSY;                               *)
+  | DIfEvents (h : hname)    (* if (!is_unsolicited_buffer_empty(self)) { h(self); s = BUSY } *)
+  | DUnknown                 (* s = CAT_STATUS_ERROR_UNKNOWN_STATE;                         *)
+  | DNothing.                (* s unchanged                                                 *)
+Scheme Equality for hname.
+Scheme Equality for dispatch.
 
 (* ====================================================================================== *)
 (* 2. tie_auto                                                                            *)
@@ -58,6 +82,8 @@ Ltac tie_norm :=
        set_u_wstate set_u_wafter set_u_ring set_u_tail set_u_head set_u_count
        setu_state setu_index setu_position setu_cmd setu_var setu_type setu_wbuf setu_wstate
        setu_wafter setu_ring setu_tail setu_head setu_count
+       fsm_beq ctype_beq cstate_beq ustate_beq wstate_beq vaccess_beq
+       N.eqb Z.eqb Pos.eqb
        andb orb negb fst snd Datatypes.length].
 
 (* named constants and light model helpers (setter chains, at most one match): unfolded so that
@@ -105,6 +131,10 @@ Ltac tie_split x :=
   | Nat.eqb ?a ?b => destruct (Nat.eqb_spec a b) as [E|E]
   | Nat.leb ?a ?b => destruct (Nat.leb_spec0 a b) as [E|E]
   | Nat.ltb ?a ?b => destruct (Nat.ltb_spec0 a b) as [E|E]
+  | fsm_beq ?a _ => tryif is_var a then destruct a else (destruct x eqn:E)
+  | ctype_beq ?a _ => tryif is_var a then destruct a else (destruct x eqn:E)
+  | cstate_beq ?a _ => tryif is_var a then destruct a else (destruct x eqn:E)
+  | ustate_beq ?a _ => tryif is_var a then destruct a else (destruct x eqn:E)
   | _ => destruct x eqn:E; try rewrite E in *
   end.
 
@@ -151,9 +181,13 @@ with tie_next n x :=
 Ltac tie_head t := lazymatch t with ?f _ => tie_head f | _ => t end.
 Ltac tie_unfold_head t := let h := tie_head t in try unfold h.
 
+(* rebound (::=) by the generated file when it contains auxiliary definitions g_aux_* *)
+Ltac tie_unfold_gen := idtac.
+
 Ltac tie_auto :=
   intros;
   lazymatch goal with |- ?L = ?R => tie_unfold_head L; tie_unfold_head R end;
+  tie_unfold_gen;
   tie_unfold_light;
   tie_go 60.
 
@@ -284,10 +318,11 @@ Definition pattern (i : nat) (s : state) : state :=
 Definition vary {A} (vals : list A) (set : A -> state -> state) (l : list state) : list state :=
   flat_map (fun s => map (fun v => set v s) vals) l.
 
-(* big family: every combination of the fields the handlers branch on, times the patterns *)
-Definition states_big : list state :=
+(* big family = (a) every combination of the fields the name matching and the argument
+   collection branch on, times three patterns, and (b) every combination of the other fields *)
+Definition states_primary : list state :=
   [base_state]
-  |> vary [0; 1; 2; 3; 4] pattern
+  |> vary [0; 1; 2] pattern
   |> vary [None; Some 0; Some 1; Some 2] setk_cmd
   |> vary [0; 1; 2] setk_index
   |> vary [0; 1; 2] setk_partial
@@ -295,6 +330,21 @@ Definition states_big : list state :=
   |> vary [T_NONE; T_RUN; T_READ; T_WRITE; T_TEST; T_TOTAL] setk_type
   |> vary [10%N; 13%N; 65%N; 63%N] setk_char
   |> vary [[]; [85%N; 85%N; 85%N; 85%N]; [6%N; 0%N]; [37%N; 7%N; 1%N]; [16%N]] set_cbuf.
+Definition states_secondary : list state :=
+  [base_state; pattern 3 base_state; pattern 4 base_state]
+  |> vary [CS_IDLE; CS_FLUSH; CS_HOLD] setk_state
+  |> vary [US_IDLE; US_FLUSH; US_READ_LOOP] setu_state
+  |> vary [false; true] setk_cr
+  |> vary [false; true] setk_hold
+  |> vary [(-1)%Z; 0%Z; 1%Z] setk_hold_exit
+  |> vary [false; true] setk_implicit
+  |> vary [0; 2] setk_position
+  |> vary [0; 1] setu_position
+  |> vary [None; Some 0] setk_cmd
+  |> vary [T_NONE; T_READ] setk_type
+  |> vary [0; 2] setk_index
+  |> vary [[]; [85%N; 85%N]] set_cbuf.
+Definition states_big : list state := states_primary ++ states_secondary.
 
 (* small family, for the bodies of the reading states (combined with all 256 bytes) *)
 Definition states_small : list state :=
